@@ -18,6 +18,7 @@ and run on the three real back ends.  Checked for every generated stream:
 Out-of-domain streams (equal / decreasing timestamps, negative durations, heartbeats carrying
 an id) are run for correspondence only."""
 import itertools
+import json
 import multiprocessing
 import os
 import shutil
@@ -46,7 +47,18 @@ RULE = ("deterministic boundary corpus (all 3-heartbeat streams on a half-second
         "to a 10 001-event insert_many, on sqlite); findings re-run and shrunk alone in a fresh process; "
         "non-trivial = an in-domain run in which at least one heartbeat was merged into a bucket already holding "
         "two or more events or inserted after a refused merge; for a lifecycle: a merge after the fed bucket was "
-        "re-created, or two storage objects")
+        "re-created, or two storage objects; ENGINE FAULTS the caller survives (harness/c07_fault.py, sqlite and peewee; 253 written-out "
+        "+ 90 (thorough 4000) seeded lifecycles): one engine call of a round of the loop - the COMMIT of the limit-1 read, the "
+        "INSERT / UPDATE, the COMMIT after it when every write commits - or of a bucket operation (each statement of delete_bucket / "
+        "create_bucket, their COMMIT) fails once or twice, raised before the engine / refused by the engine's authorizer / SQLITE_BUSY "
+        "under a real reader lock in rollback-journal mode, at every heartbeat position; the caller repeats the round (same or fresh "
+        "Event object), skips the heartbeat, or deletes and creates the bucket again; no dump (no COMMIT) between the rounds, an "
+        "acknowledged write to another bucket pending when the stream starts; expected = heartbeat_reduce of the heartbeats whose round "
+        "finally returned normally, other buckets = before + what the caller wrote; PRE-FILLED buckets (all back ends; 36 + 60 "
+        "(thorough 2500)): filled by insert_many newest first / in shuffled order / by single inserts in shuffled order (ids run "
+        "against time), then continued by the loop; MIGRATED buckets (16 + 24 (thorough 600)): a stream fed into a legacy peewee store "
+        "at its default path, SqliteStorage(testing=True) constructed in that data directory (the library's own migration), the "
+        "stream continued there; non-trivial = a fault fired and the caller went on / a merge on a pre-filled or migrated bucket")
 
 PULSES = [0, 0.5, 1, 2.5, 2, 5, 0.001, 0.0000005, 1e-6, 3.0000015, 60]
 META = [1, 1, 1, 0, None, 0]
@@ -321,6 +333,10 @@ def oracle(case, run, backend, UNIV=UNIV):
         if len(changed) + len(new) > 1:
             return "step-shape", (f"heartbeat {k} {stream[k]} changed {len(changed)} and added {len(new)} events on "
                                   f"{backend} (expected at most one of the two)")
+        read = run["reads"][k] if k < len(run.get("reads") or []) else None
+        if read is not None and read[0] and any(i != read[0][0] for i in changed):
+            return "earlier-altered", (f"heartbeat {k} {stream[k]}: the limit-1 read returned event {read}, replace_last rewrote "
+                                       f"{[(i, cb[i], ca[i]) for i in changed]} on {backend}")
     if isinstance(run["final"], dict):
         return "raised", f"reading the bucket back after the loop (Bucket.get(-1)) raised {run['final']['raised']} on {backend}"
     if run["reduce"] is None:
@@ -328,63 +344,118 @@ def oracle(case, run, backend, UNIV=UNIV):
     got = [w[1:] for w in reversed(run["final"])]
     want = [w[1:] for w in run["reduce"]]
     if got != want:
-        return "reduce", (f"bucket after the loop on {backend} (oldest first, ids aside) {got} != heartbeat_reduce "
-                          f"of the stream {want}")
+        return "reduce", (f"bucket after the loop on {backend} (oldest first, ids aside) {got} != {run.get('reduce_of', 'heartbeat_reduce of the stream')} {want}")
     return None
+
+
+def expectations(f, p, reduce_of):
+    """what the fed bucket must hold (oldest first, with ids []): [(description, events), ...] - more than one only when a
+    skipped heartbeat's write statement had run before its COMMIT raised (either outcome of a call that raised)"""
+    if f is None or len(f["maybe"]) > 3:
+        return None
+    pre = sorted(f["prefill"], key=lambda w: w[1])
+    out = []
+    for mask in range(1 << len(f["maybe"])):
+        extra = [w for k, w in enumerate(f["maybe"]) if mask >> k & 1]
+        stream = sorted(f["stream"] + extra, key=lambda w: w[1])
+        if not in_domain(stream):
+            continue
+        if not pre:
+            what, evs = "heartbeat_reduce of what was fed since the bucket was created", reduce_of(stream, p)
+        else:
+            what = ("the events the bucket was filled with, the newest of them continued by the stream (prefill[:-1] ++ "
+                    "heartbeat_reduce([newest] ++ stream))")
+            evs = [[[]] + w[1:] for w in pre[:-1]] + reduce_of([pre[-1]] + stream, p)
+        out.append((what + (f" with the skipped heartbeat(s) {extra}" if extra else ""), evs))
+    return out or None
 
 
 def oracle_lifecycle(case, res, backend, reduce_of):
     """The property statement on every phase of a lifecycle case -> None or (signature suffix, description, phase)."""
     univ = case["univ"]
-    fed = c07_life.fed_and_history(case)
+    fed = c07_life.fed_and_history(case, res)
     for k, (ph, rec, f) in enumerate(zip(case["phases"], res["phases"], fed)):
         be = rec["backend"]
         where = f"{be} (phase {k} of the lifecycle, storage object {rec['st']})"
-        expected = None if (f is None or not in_domain(f)) else reduce_of(f, ph["p"])
+        expected = expectations(f, ph["p"], reduce_of)
         if rec["other_store_changed"]:
             return "other-store", f"feeding a bucket of storage object {rec['st']} changed the buckets of storage object(s) " \
                                   f"{rec['other_store_changed']} ({where})", k
+        if "migrated_views" in rec and k > 0:
+            # the store was constructed on a legacy database: the buckets hold what the legacy store held (ids aside)
+            legacy = res["phases"][k - 1]["last"]
+            strip = lambda views: [[] if v == [] else [v[0][0], sorted(w[1:] for w in v[0][1])] for v in views]   # noqa: E731
+            if strip(legacy) != strip(rec["migrated_views"]):
+                return "migration", f"the store constructed on the legacy database does not hold what the legacy store held: " \
+                                    f"{strip(legacy)} -> {strip(rec['migrated_views'])} ({where})", k
         if ph["dense"]:
             run = {"before": rec["before"], "steps": rec["steps"], "branches": rec["branches"], "final": rec["final"],
-                   "reduce": expected}
+                   "reads": rec.get("reads"), "reduce": expected[0][1] if expected else None,
+                   "reduce_of": expected[0][0] if expected else None}
             bad = oracle({"stream": ph["stream"], "b": ph["b"]}, run, where, univ)
             if bad:
                 return bad[0], bad[1], k
             continue
+        survived = ""
+        if "outcomes" in rec:
+            n_f = sum(1 for t in rec["tries"] if t)
+            survived = (f"; the engine failed in {n_f} round(s) (heartbeats {[i for i, t in enumerate(rec['tries']) if t]}: "
+                        f"{[t for t in rec['tries'] if t]}), the caller went on: {[o for o, t in zip(rec['outcomes'], rec['tries']) if t]}")
         for i, st in enumerate(rec["steps"]):
-            if st[0][0] != 0:
-                return "raised", f"heartbeat {i} {ph['stream'][i]} raised {sh.ERRNAME.get(st[0][1], st[0][1])} on {where}", k
+            if st[0][0] == 1:
+                return "raised", f"heartbeat {i} {ph['stream'][i]} raised {sh.ERRNAME.get(st[0][1], st[0][1])} on {where}{survived}", k
+        inserted = {}
+        q = c07_life.quiet_tail(ph)
+        if q is not None:
+            for op in ph["ops"][q:]:
+                inserted.setdefault(op[1], []).append(op[2][1:])
         for b, vb, va in zip(univ, rec["first"], rec["last"]):
-            if b != ph["b"] and vb != va:
-                return "other-bucket", f"the stream changed bucket {b} on {where}", k
+            if b == ph["b"]:
+                continue
+            if b in inserted and vb != [] and va != []:
+                same = vb[0][0] == va[0][0] and sorted(w[1:] for w in va[0][1]) == sorted([w[1:] for w in vb[0][1]] + inserted[b])
+            else:
+                same = vb == va
+            if not same:
+                return "other-bucket", (f"bucket {b} after the stream into bucket {ph['b']} does not hold what it held before plus what "
+                                        f"the caller wrote into it ({inserted.get(b, [])}): {vb} -> {va} on {where}{survived}"), k
         if isinstance(rec["final"], dict):
-            return "raised", f"reading the bucket back after the loop (Bucket.get(-1)) raised {rec['final']['raised']} on {where}", k
+            return "raised", f"reading the bucket back after the loop (Bucket.get(-1)) raised {rec['final']['raised']} on {where}{survived}", k
         if expected is not None:
             got = [w[1:] for w in reversed(rec["final"])]
-            want = [w[1:] for w in expected]
-            if got != want:
+            wants = [[w[1:] for w in evs] for _, evs in expected]
+            if got not in wants:
+                want = wants[0]
                 d = next((i for i, (x, y) in enumerate(zip(got, want)) if x != y), min(len(got), len(want)))
-                return "reduce", (f"bucket after the loop on {where}: {len(got)} events, heartbeat_reduce of what was fed since the "
-                                  f"bucket was created: {len(want)}; first difference at position {d}: "
-                                  f"{got[d:d + 2]} vs {want[d:d + 2]}"), k
+                return "reduce", (f"bucket after the loop on {where}: {len(got)} events, {expected[0][0]}: {len(want)}; first "
+                                  f"difference at position {d}: {got[d:d + 2]} vs {want[d:d + 2]}{survived}"), k
     return None
 
 
 def lifecycle_model_cases(case, res):
     """[(phase index, wire case, record)]: the model of the phase's back end on everything done to that storage
-    object so far; sparse phases go in as the concrete operations the loop performed (no per-heartbeat dumps)"""
+    object so far; sparse phases go in as the concrete operations the loop performed (no per-heartbeat dumps).  With engine
+    faults: the calls that TOOK EFFECT - every call that returned normally, and a call whose statements had all run when its
+    closing COMMIT raised (the engine keeps the transaction open) -; after a half-applied call (a later statement of a
+    bucket operation raised) the store is not compared any more: the store models have no step for it.  A store constructed
+    on a legacy database starts with the calls the migration made"""
     hist = {}
+    void = set()
     out = []
     for k, (ph, rec) in enumerate(zip(case["phases"], res["phases"])):
         h = hist.setdefault(ph["st"], [])
-        h += ph["ops"]
+        h += rec.get("migration_ops", [])
+        h += rec.get("ops_effective", ph["ops"])
+        if rec.get("model_void"):
+            void.add(ph["st"])
         code = sh.BACKEND_CODE[rec["backend"]]
         if ph["dense"]:
-            out.append((k, sx([code, case["univ"], h, ph["b"], pulse_us(ph["p"]), ph["stream"]]), rec))
+            if ph["st"] not in void:
+                out.append((k, sx([code, case["univ"], h, ph["b"], pulse_us(ph["p"]), ph["stream"]]), rec))
             h += rec["performed"]
         else:
             h += rec["performed"]
-            if not any(q["st"] == ph["st"] and q["dense"] for q in case["phases"][k + 1:]):   # else: part of that phase's history
+            if ph["st"] not in void and not any(q["st"] == ph["st"] and q["dense"] for q in case["phases"][k + 1:]):   # else: part of that phase's history
                 out.append((k, sx([code, case["univ"], h, ph["b"], pulse_us(ph["p"]), []]), rec))
         hist[ph["st"]] = list(h)
     return out
@@ -422,6 +493,31 @@ def pre1970_probe(ck):
     ck.coverage["domain_probe_pre1970"] = {
         be: {"events_read_back": len(res[be]["final"]), "reduce": len(res[be]["reduce"])} for be in sh.BACKENDS}
     return case, res
+
+
+def fault_probes(ck):
+    """Recorded, not a verdict: what the tree does at the two fault positions where a call that RAISED leaves something
+    behind (notes/agents/C07.md, Round 5 findings).  (a) sqlite, every write commits: the COMMIT after a heartbeat's INSERT
+    raises, the caller skips the heartbeat - the INSERT stays in the open transaction and the next COMMIT keeps it (the
+    oracle admits either outcome for such a heartbeat).  (b) the second statement of delete_bucket (the bucket's own row)
+    raises - the bucket's events are gone, the bucket is still listed (sqlite: committed by the next call)."""
+    s = c07_life.hb_stream(0, [1, 2, 3], gap=2, dur=1)
+    a = c07_life.fault_case(["sqlite"], [c07_life.fault_phase(0, c07_life.start_ops(), c07_life.T, 1, s,
+                                                              [c07_life.hb_fault(s[1], "commit", 1, "wrap", "skip")])], lazy=False)
+    d = c07_life.delete(c07_life.T)
+    b = c07_life.fault_case(c07_life.FAULT_BACKENDS, [
+        c07_life.phase(0, c07_life.start_ops(), c07_life.T, 1, s),
+        c07_life.fault_phase(0, [d], c07_life.T, 1, [], [c07_life.op_fault(d, "execute", 1, "wrap", "next")])])
+    ra, rb = run_impl_batch([a, b], procs=1)
+    rec = ra["sqlite"]["phases"][0]
+    out = {"a_sqlite_eager_commit_after_insert_raises_caller_skips": {
+        "round_outcomes": rec["outcomes"], "labels_in_the_bucket_afterwards": [w[3] for w in reversed(rec["final"])] if isinstance(rec["final"], list) else rec["final"]}}
+    for be in c07_life.FAULT_BACKENDS:
+        before, after = rb[be]["phases"][0]["last"][0], rb[be]["phases"][1]["last"][0]
+        out.setdefault("b_second_statement_of_delete_bucket_raises", {})[be] = {
+            "delete_bucket_result": rb[be]["phases"][1]["op_results"], "bucket_still_listed": after != [],
+            "events_before": len(before[0][1]) if before else None, "events_after": len(after[0][1]) if after else None}
+    ck.coverage["fault_probes_calls_that_raised_and_left_something_behind"] = out
 
 
 def main(argv=None):
@@ -462,6 +558,12 @@ def main(argv=None):
     n_life = 160 if ck.tier == "quick" else 6000
     cases = list(c07_life.large_cases(ck.rng, ck.tier)) + cases + c07_life.boundary_cases() \
         + [c07_life.random_case(ck.rng) for _ in range(n_life)]
+    # round 5: engine faults the caller survives (sqlite, peewee); buckets filled newest first / in shuffled id order or
+    # imported by the library's migration from a legacy peewee database, then continued by the loop
+    n_fault, n_pre, n_mig = (90, 60, 24) if ck.tier == "quick" else (4000, 2500, 600)
+    cases += c07_life.fault_boundary_cases() + [c07_life.random_fault_case(ck.rng) for _ in range(n_fault)]
+    cases += c07_life.prefilled_boundary_cases() + [c07_life.random_prefilled_case(ck.rng) for _ in range(n_pre)]
+    cases += c07_life.migrated_boundary_cases() + [c07_life.random_migrated_case(ck.rng) for _ in range(n_mig)]
     from aw_transform.heartbeats import heartbeat_reduce
 
     def reduce_of(stream, p):
@@ -486,7 +588,7 @@ def main(argv=None):
     deferred = []       # lifecycle findings that did not reproduce on their own in a fresh process: reported after the others
     # lifecycle findings are confirmed (and shrunk) on their own in a fresh process, so they are self-contained; a finding
     # of the single-stream cases may owe itself to what earlier cases left behind in its worker process; long inputs last
-    order = sorted(range(len(cases)), key=lambda i: {"lifecycle": 0, "lifecycle-large": 2}.get(cases[i]["kind"], 1))
+    order = sorted(range(len(cases)), key=lambda i: 2 if cases[i]["kind"] == "lifecycle-large" else 0 if cases[i]["kind"].startswith("lifecycle") else 1)
     for case, res in ((cases[i], results[i]) for i in order):
         if case["kind"].startswith("lifecycle"):
             ck.count(case["kind"])
@@ -500,12 +602,33 @@ def main(argv=None):
                         ck.count("lifecycle:phase:fed-bucket-deleted-and-created-again")
                     for br in rec["branches"]:
                         ck.count(f"{be}:{br}")
+                    for f_, o_, t_ in zip(ph["stream"], rec.get("outcomes", []), rec.get("tries", [])):
+                        if t_:
+                            ck.count(f"fault:{be}:round:engine-failed-{len(t_)}x:caller-{'repeated-the-round' if o_ == 'ok' and not rec['recreated'] else 're-created-the-bucket' if o_ == 'ok' else o_}")
+                    for f_ in ph.get("faults") or []:
+                        ck.count(f"fault:{be}:armed:{f_['on']}:{f_['kind']}{f_['nth']}:{f_.get('mech', 'wrap')}")
+                    for r_ in rec["op_results"]:
+                        if r_ and isinstance(r_[0], list):
+                            ck.count(f"fault:{be}:bucket-operation-failed-and-was-repeated")
+                        elif ph.get("faults") and r_[0] == 1:
+                            ck.count(f"fault:{be}:bucket-operation-failed")
+                    if rec.get("model_void"):
+                        ck.count(f"fault:{be}:half-applied-bucket-operation(no model comparison afterwards)")
+                    if rec.get("maybe"):
+                        ck.count(f"fault:{be}:skipped-heartbeat-whose-write-had-run(either outcome admitted)", len(rec["maybe"]))
                 merged_after_recreate = any(
                     any(op[0] == 2 and op[1] == ph["b"] for op in ph["ops"]) and "merge" in rec["branches"]
                     for ph, rec in zip(case["phases"], r["phases"]))
-                ck.note_case([be, "lifecycle", case["stores"], [[ph["st"], ph["via"], ph["ops"], ph["b"], ph["p"], rel(ph["stream"][:50]),
-                                                                 len(ph["stream"])] for ph in case["phases"]]],
-                             nontrivial=merged_after_recreate or len(case["stores"]) > 1)
+                special = {"lifecycle-fault": any(any(rec.get("tries", [])) or any(isinstance(x[0], list) or x[0] == 1 for x in rec["op_results"] if x)
+                                                  for rec in r["phases"]),
+                           "lifecycle-prefilled": any("merge" in rec["branches"] for rec in r["phases"]),
+                           "lifecycle-migrated": any("merge" in rec["branches"] and case["stores"][rec["st"]] == "M" for rec in r["phases"])
+                           }.get(case["kind"], False)
+                ck.note_case([be, case["kind"], case["stores"], case.get("store_opts"),
+                              [[ph["st"], ph["via"], ph["ops"], ph["b"], ph["p"], rel(ph["stream"][:50]), len(ph["stream"]),
+                                [[f_["on"], f_.get("ts", 0) - BASE if f_["on"] == "hb" else f_["op"], f_["kind"], f_["nth"], f_.get("mech"), f_["then"],
+                                  f_.get("times", 1)] for f_ in ph.get("faults") or []]] for ph in case["phases"]]],
+                             nontrivial=merged_after_recreate or len(case["stores"]) > 1 or special)
                 bad = oracle_lifecycle(case, r, be, reduce_of)
                 if bad and len(ck.violations) + len(deferred) >= 20:
                     ck.count("lifecycle:failing-beyond-the-20-reported")
@@ -513,17 +636,22 @@ def main(argv=None):
                     sig = bad[0]
                     alone = replay_fails(case, be, sig)
                     small = case
-                    if alone and len(ck.violations) < 3 and case["kind"] == "lifecycle":
+                    if alone and len(ck.violations) < 3 and case["kind"] != "lifecycle-large":
                         small = shrink_lifecycle(case, be, lambda c: replay_fails(c, be, sig))
                         bad = oracle_lifecycle(small, fresh.run((small, be)), be, reduce_of) or bad
                     (ck.failing_input if alone else lambda *a: deferred.append(a))(f"C07:{r['phases'][min(bad[2], len(r['phases']) - 1)]['backend']}:{sig}", bad[1],
-                                     {"backend": be, "storage_objects": [be if s == "X" else c07_life.partner(be, s == "X2") for s in small["stores"]],
-                                      "failing_phase": bad[2],
-                                      "phases": [{"storage_object": ph["st"], "operations_issued_through": ph["via"],
+                                     {"backend": be, "storage_objects": [c07_life.STORE_KIND.get(s, "{}").format(c07_life.store_backend(be, s)) for s in small["stores"]],
+                                      "failing_phase": bad[2], "store_options": small.get("store_opts", {}),
+                                      "phases": [dict({"storage_object": ph["st"], "operations_issued_through": ph["via"],
                                                   "operations": [sh.describe(o) for o in ph["ops"][:40]], "operations_wire": ph["ops"][:40],
                                                   "then_heartbeats_into_bucket": sh.s_of(ph["b"]), "pulsetime_s": ph["p"],
                                                   "stream_wire(id?,ts_us,dur_us,data_label)": ph["stream"][:60],
-                                                  "stream_len": len(ph["stream"])} for ph in small["phases"]],
+                                                  "stream_len": len(ph["stream"])},
+                                                 **({"engine_faults(harness/c07_fault.py)": ph["faults"],
+                                                     "dumps_between_the_rounds": False} if ph.get("faults") else {}))
+                                                 for ph in small["phases"]],
+                                      "case_wire": small if len(json.dumps(small)) < 20000 else None,
+                                      "rerun": "VERIF_REPO=<tree> python -m harness.c07_life <this replay file>",
                                       "reproduces_alone_in_a_fresh_process": alone,
                                       "how": "harness/c07_life.py run_lifecycle: every phase on the SAME storage object(s), the standard "
                                              "loop over Datastore/Bucket; expected = heartbeat_reduce of what was fed into the bucket since "
@@ -632,11 +760,22 @@ def main(argv=None):
     ck.coverage["lifecycle_replays_in_fresh_processes"] = fresh.evaluations
 
     pre1970_probe(ck)
+    try:
+        fault_probes(ck)
+    except Exception as ex:  # noqa: BLE001 -- a probe, not a verdict
+        ck.coverage["fault_probes_calls_that_raised_and_left_something_behind"] = {"probe_could_not_run": f"{type(ex).__name__}: {ex}"}
     ck.assumptions += [
         "the loop is the standard client loop written in harness/c07.py over Datastore/Bucket (it is not in aw-core)",
         "pulsetime enters the model as the integer microseconds Python's timedelta(seconds=p) yields",
         "event data {'x': n} <-> label n; instants exact integer microseconds on both sides",
         "in-domain streams lie in 1970..2100 (DESIGN 2.2); the sqlite theorem carries 0 <= end explicitly",
+        "engine faults: the store models have no fault step; a fault lifecycle is judged by the property statement on the rounds "
+        "that finally returned normally and by the model run on the calls that took effect (those that returned normally, and a "
+        "call whose statements had all run when its closing COMMIT raised); engine rules assumed: a COMMIT that fails leaves the "
+        "transaction open and loses nothing, a statement that fails writes nothing (sampled with the authorizer and a real lock)",
+        "pre-filled / migrated buckets are outside the theorem C07_ingest_eq_reduce_* (its bucket starts empty): the statement "
+        "checked is C07_earlier_untouched_* per heartbeat (the rewritten event is the one the limit-1 read returned = the newest by "
+        "start) and, after the stream, prefill[:-1] ++ heartbeat_reduce([newest] ++ stream)",
     ]
     return ck.finish(RULE)
 
